@@ -9,6 +9,7 @@ is always complete.  Nothing here is ever compiled or executed by C20.
 """
 from compyle.api import declare
 from pysph.sph.equation import Equation
+from pysph.sph.integrator_step import IntegratorStep
 
 
 class C20Filler(Equation):
@@ -229,3 +230,52 @@ TOY_CLASSES = [
     DestOnlyLoop, SourceOnlyLoop, UsesConstant, NoPairSymbols,
     NoSourceEquation, UsesWholeMinimalArray,
 ]
+
+
+# ------------------------------------------------------------------ steppers
+class StepPerMethod(IntegratorStep):
+    """A requirement of its own in every method (and t / dt arguments)."""
+
+    def initialize(self, d_idx, d_sa0, d_x):
+        d_sa0[d_idx] = d_x[d_idx]
+
+    def stage1(self, d_idx, d_sa1, d_x, dt):
+        d_sa1[d_idx] = d_x[d_idx]*dt
+
+    def stage2(self, d_idx, d_sa2, d_x, t):
+        d_sa2[d_idx] = d_x[d_idx]*t
+
+    def stage3(self, d_idx, d_sa3, d_x):
+        d_sa3[d_idx] = d_x[d_idx]
+
+
+class StepDerived(StepPerMethod):
+    """Inherits initialize/stage1/stage3, replaces stage2: `sa2` is no longer
+    needed, `sc0` and `dt_cfl` are."""
+
+    def stage2(self, d_idx, d_sc0, d_dt_cfl):
+        d_sc0[d_idx] = d_dt_cfl[d_idx]
+
+
+class StepPyStageOnly(IntegratorStep):
+    """stage1 exists only as py_stage1 (takes the array object); the only
+    named requirements are those of stage2."""
+
+    def py_stage1(self, dst, t, dt):
+        pass
+
+    def stage2(self, d_idx, d_sb0, d_u0, d_u):
+        d_sb0[d_idx] = d_u0[d_idx] - d_u[d_idx]
+
+
+class StepUsesConstant(IntegratorStep):
+    """Reads names that are usually supplied as constants."""
+
+    def stage1(self, d_idx, d_x, d_c20total, d_V0):
+        d_x[d_idx] += d_c20total[0]*d_V0[0]
+
+    def stage2(self, d_idx, d_x, d_c20total):
+        d_x[d_idx] -= d_c20total[0]
+
+
+TOY_STEPPERS = [StepPerMethod, StepDerived, StepPyStageOnly, StepUsesConstant]
